@@ -13,6 +13,8 @@ X_PROGS = {
     "fact": "func fac(val n) is if n = 0 then return 1 else return mul(n, fac(n - 1))\n"
             "func mul(val a, val b) is var r; { r := 0; while b > 0 do { r := r + a; b := b - 1 }; return r }\n"
             "proc main() is 0(fac(5))\n",
+    # more than three global words: the image starts with a PREFIXED branch (first byte PFIX)
+    "globals5": "var a; var b; var c; var d; var e;\nproc main() is { a := 1; b := 2; c := 3; d := 4; e := 5; 0(((a + b) + (c + d)) + e) }\n",
     "arr": "array a[8]; var i;\nproc main() is { i := 0; while i < 8 do { a[i] := i + i; i := i + 1 }; 0(a[3] + a[7]) }\n",
 }
 
@@ -23,6 +25,18 @@ ASM_PROGS = {
     "asm_uses_b": "BR start\nDATA 16383\nstart\nLDAC 5\nOPR SUB\nLDBM 1\nSTAI 2\nLDAC 0\nOPR SVC\n",
     "asm_brn_a": "BR start\nDATA 16383\nstart\nBRN neg\nLDAC 1\nBR out\nneg\nLDAC 2\nout\nLDBM 1\nSTAI 2\nLDAC 0\nOPR SVC\n",
     "asm_stai_b": "BR start\nDATA 16383\nstart\nLDAC 77\nSTAI 100\nLDAM 100\nLDBM 1\nSTAI 2\nLDAC 0\nOPR SVC\n",
+    # first byte of the image is a prefix (BR over more than 15 bytes): nothing may accumulate in oreg while reset is held
+    "asm_prefix_first": "BR start\nDATA 16383\nDATA 1\nDATA 2\nDATA 3\nDATA 4\nstart\nLDAC 9\nLDBM 1\nSTAI 2\nLDAC 0\nOPR SVC\n",
+    "asm_nfix_first": "LDAC -1\nBR start\nDATA 16383\nstart\nLDBC 7\nOPR ADD\nLDBM 1\nSTAI 2\nLDAC 0\nOPR SVC\n",
+    # a store, fetched from lane 0 of a word, that rewrites the rest of that same word: the following bytes are the NEW ones
+    "asm_selfmod": "BR start\nDATA 16383\nneww\nDATA 842150436\nstart\nLDAM neww\nLDBC 0\nLDBC 0\nLDBC 0\nself\nSTAM self\n"
+                   "LDAC 1\nLDAC 1\nLDAC 1\nLDBM 1\nSTAI 2\nLDAC 0\nOPR SVC\n",
+    # the same through STAI, fetched after a taken branch into lane 0
+    "asm_selfmod_stai": "BR start\nDATA 16383\nneww\nDATA 842150528\nstart\nLDAM neww\nLDBC 4\nBR self\nLDAC 0\nself\nSTAI 0\n"
+                        "LDAC 1\nLDAC 1\nLDAC 1\nLDBM 1\nSTAI 2\nLDAC 0\nOPR SVC\n",
+    # back-to-back system calls: three writes, then two reads of which the second decides the exit value
+    "asm_svc_twice": "BR start\nDATA 16383\nstart\nLDAC 104\nLDBM 1\nSTAI 2\nLDAC 0\nSTAI 3\nLDAC 1\nOPR SVC\nOPR SVC\nOPR SVC\n"
+                     "LDAC 0\nSTAI 2\nLDAC 2\nOPR SVC\nOPR SVC\nLDAM 1\nLDAI 1\nLDBM 1\nSTAI 2\nLDAC 0\nOPR SVC\n",
     "asm_svc_first": "OPR SVC\nBR start\nDATA 16383\n",   # first instruction is SVC (D25 shape); never well-formed, kept out of C06
 }
 
@@ -51,4 +65,4 @@ def build_binaries(tools, wd):
 
 
 _IN = [b"", b"a", b"hello\n", bytes([0x80, 0xFE, 0x00, 0x41]), bytes([0x7F, 0x80, 0xC3, 0xA9])]
-INPUTS = {"echo": _IN, "classify": _IN}
+INPUTS = {"echo": _IN, "classify": _IN, "asm_svc_twice": [b"AB", b"A", b""]}
